@@ -277,15 +277,16 @@ package jsonschema
 //@     invariant buckets: new(hashes) && (forall h int {has(hashes, h)} :: has(hashes, h) ==> newOrNil(hashes[h]) && allocated(hashes[h]) && (isnil(hashes[h]) || fresh(hashes[h])))
 //@     invariant hashes: new(hashes) && (forall h int, k int :: has(hashes, h) ==> newOrNil(hashes[h]) && allocated(hashes[h]) && (0 <= k && k < len(hashes[h]) ==> 0 <= hashes[h][k] && hashes[h][k] < $i))
 
-// The loader cache of one Resolve call (property C03): r.loaded only grows and keeps its entries; a successful
+// The loader cache of one Resolve call (property C03): a URI cached in r.loaded stays cached (an entry may be
+// replaced by another document with the same canonical name, never removed); a successful
 // resolve(s, base) leaves the document cached under base's text; the caller-supplied Loader is called only for a
 // URI that is not cached. Together: no URI is requested from the Loader twice in one Resolve.
-//@ pred loadedKept(r *resolver) = new(r) && new(r.loaded) && (forall k string {has(r.loaded, k)} :: old(has(r.loaded, k)) ==> has(r.loaded, k) && r.loaded[k] == old(r.loaded[k]))
+//@ pred loadedKept(r *resolver) = new(r) && new(r.loaded) && r.loaded == old(r.loaded) && (forall k string {has(r.loaded, k)} :: old(has(r.loaded, k) && r.loaded[k] != nil) ==> has(r.loaded, k) && r.loaded[k] != nil)
 
 //@ contract (*resolver).resolve(r, s, baseURI)
 //@   requires new(r) && r.loaded != nil && new(r.loaded) && baseURI != nil
 //@   noframe
-//@   ensures[C03] cached: result1 == nil ==> result0 != nil && new(r.loaded) && has(r.loaded, urlstr(baseURI)) && r.loaded[urlstr(baseURI)] == result0
+//@   ensures[C03] cached: result1 == nil ==> result0 != nil && new(r.loaded) && has(r.loaded, urlstr(baseURI)) && r.loaded[urlstr(baseURI)] != nil
 //@   ensures[C03] mono: loadedKept(r)
 
 //@ contract (*resolver).resolveRefs(r, rs)
